@@ -100,10 +100,14 @@ func ReceiveFeedback(item *models.Item) error {
 		panic("item is not a seed")
 	}
 
-	item.SetSource(models.ItemSourceFeedback)
-	_, loaded := globalReactor.stateTable.Swap(item.GetID(), item)
+	// An item sent to the feedback channel should be present on the state table, if not present reactor should error out
+	// (without storing it: an entry without a token would break the token accounting)
+	previous, loaded := globalReactor.stateTable.Load(item.GetID())
 	if !loaded {
-		// An item sent to the feedback channel should be present on the state table, if not present reactor should error out
+		return ErrFeedbackItemNotPresent
+	}
+	item.SetSource(models.ItemSourceFeedback)
+	if !globalReactor.stateTable.CompareAndSwap(item.GetID(), previous, item) {
 		return ErrFeedbackItemNotPresent
 	}
 	select {
